@@ -6,8 +6,11 @@
 (* The deprecated enum_to_string(e) returns that value's name or nullptr.   *)
 (*                                                                          *)
 (* Enums: sequence of [name, w (bytes of the encoding), values: sequence of *)
-(* [name, code]] where code is the underlying value as a natural number      *)
-(* (char values by their character code) - transliterated from the schema.  *)
+(* [name, code]] where code is the underlying value as w little-endian      *)
+(* bytes (two's complement; char values by their character code) -          *)
+(* transliterated from the schema.  Bytes, because 64-bit encodings are no  *)
+(* TLC integers and a comparison of the wrong width (value modulo 2^32)     *)
+(* shows only there.                                                        *)
 EXTENDS Naturals, Sequences, FiniteSets, TLC, Json
 
 CONSTANT Enums
@@ -18,17 +21,20 @@ VARIABLES en,     \* index of the enum under test
 vars == <<en, x, ret>>
 
 Codes(e) == {Enums[e].values[k].code : k \in 1 .. Len(Enums[e].values)}
-\* probes: every declared value, its neighbours, zero and the type maximum
-MaxOf(w) == CASE w = 1 -> 255 [] w = 2 -> 65535 [] OTHER -> 2147483647
-Probes(e) == (Codes(e) \cup {c + 1 : c \in Codes(e)} \cup {c - 1 : c \in Codes(e) \ {0}}
-              \cup {0, MaxOf(Enums[e].w)}) \cap (0 .. MaxOf(Enums[e].w))
+\* probes: every declared value; every declared value with ONE byte changed by +1, -1 or its top
+\* bit (the neighbours in every digit: +-1, +-256, ..., +-2^32, ..., sign); zero; all ones
+Bump(c, i, d) == [c EXCEPT ![i] = (c[i] + d) % 256]
+Probes(e) == LET w == Enums[e].w
+             IN Codes(e)
+                \cup {Bump(c, i, d) : c \in Codes(e), i \in 1 .. w, d \in {1, 255, 128}}
+                \cup {[i \in 1 .. w |-> 0], [i \in 1 .. w |-> 255]}
 
 TagOf(e, v) ==
   IF v \in Codes(e)
   THEN Enums[e].values[CHOOSE k \in 1 .. Len(Enums[e].values) : Enums[e].values[k].code = v].name
   ELSE "unknown"
 
-Init == en \in 1 .. Len(Enums) /\ x = 0 /\ ret = "init"
+Init == en \in 1 .. Len(Enums) /\ x = <<>> /\ ret = "init"
 VisitValue(v) == /\ ret = "init"
                  /\ x' = v
                  /\ ret' = TagOf(en, v)
